@@ -279,24 +279,27 @@ func vfC09GenRule(rt *rapid.T, s *vfC09Spec) vfC09Rule {
 		names = append(names, p.Name)
 	}
 	if s.Default != "" {
-		names = append(names, "")
+		// rules without a policyRef of their own (they follow defaultPolicyRef) are as likely as the rest together
+		for range s.Policies {
+			names = append(names, "")
+		}
 	}
 	r.PolicyRef = rapid.SampledFrom(names).Draw(rt, "policyRef")
 	return r
 }
 
 func vfC09GenFilterPolicy(rt *rapid.T, name string) vfC09Policy {
-	return vfC09Policy{Name: name, Limit: rapid.IntRange(1, 4).Draw(rt, "limit"), Period: "1h",
+	return vfC09Policy{Name: name, Limit: rapid.SampledFrom([]int{1, 1, 2, 3, 4, 6}).Draw(rt, "limit"), Period: "1h",
 		Timeout: rapid.SampledFrom([]string{"", "0s", "1ms", "30m", "100ms"}).Draw(rt, "timeout")}
 }
 
 func vfC09GenFilterSpec(rt *rapid.T) *vfC09Spec {
 	s := &vfC09Spec{}
-	np := rapid.IntRange(1, 3).Draw(rt, "npolicies")
+	np := rapid.SampledFrom([]int{1, 2, 2, 3, 3}).Draw(rt, "npolicies")
 	for i := 0; i < np; i++ {
 		s.Policies = append(s.Policies, vfC09GenFilterPolicy(rt, fmt.Sprintf("p%d", i)))
 	}
-	if rapid.Bool().Draw(rt, "hasDefault") {
+	if rapid.IntRange(0, 3).Draw(rt, "hasDefault") > 0 {
 		s.Default = s.Policies[rapid.IntRange(0, np-1).Draw(rt, "default")].Name
 	}
 	nr := rapid.IntRange(1, 4).Draw(rt, "nrules")
@@ -310,6 +313,18 @@ func vfC09GenFilterSpec(rt *rapid.T) *vfC09Spec {
 func vfC09MutateSpec(rt *rapid.T, old *vfC09Spec) *vfC09Spec {
 	s := &vfC09Spec{Default: old.Default}
 	s.Policies = append(s.Policies, old.Policies...)
+	if old.Default != "" && len(old.Policies) > 1 && rapid.IntRange(0, 2).Draw(rt, "defaultOnlySwitch") == 0 {
+		// the only change: defaultPolicyRef now names another, unchanged, existing policy
+		var others []string
+		for _, p := range old.Policies {
+			if p.Name != old.Default {
+				others = append(others, p.Name)
+			}
+		}
+		s.Default = rapid.SampledFrom(others).Draw(rt, "newDefault")
+		s.Rules = append(s.Rules, old.Rules...)
+		return s
+	}
 	if rapid.IntRange(0, 3).Draw(rt, "changePolicy") == 0 {
 		i := rapid.IntRange(0, len(s.Policies)-1).Draw(rt, "which")
 		s.Policies[i] = vfC09GenFilterPolicy(rt, s.Policies[i].Name)
@@ -388,6 +403,26 @@ func TestVerifC09FilterRules(t *testing.T) {
 						// known finding: steer away (the check goes red again once the entry is removed)
 						vf.Exclude()
 						vfC09DropDupCarried(spec, next)
+					}
+				}
+				if next.Default != spec.Default && len(next.Rules) == len(spec.Rules) {
+					switched, exhausted := false, false
+					for i, r := range next.Rules {
+						pr := spec.Rules[i]
+						if r.PolicyRef == "" && pr.PolicyRef == "" && r.matcherKey() == pr.matcherKey() && next.policyOf(r).Limit != spec.policyOf(pr).Limit {
+							switched = true
+							for c := range states[i].counts {
+								if c >= spec.policyOf(pr).Limit || c >= next.policyOf(r).Limit {
+									exhausted = true
+								}
+							}
+						}
+					}
+					if switched {
+						vf.Class("filter reload switches defaultPolicyRef: a rule's effective limit changes")
+					}
+					if exhausted {
+						vf.Class("filter reload switches defaultPolicyRef: … and the old or new limit is already reached")
 					}
 				}
 				nstates := make([]*vfC09RuleState, len(next.Rules))
